@@ -205,7 +205,7 @@ func (vc *VC) oblige(st *State, kind, tag string, cond Term, descr string) {
 	if vc.contract != nil && (vc.contract.NoSafety || vc.contract.NoPre) {
 		skip := false
 		switch kind {
-		case "nil", "bounds", "slice", "assert-type", "nilmap", "makeslice", "shift", "callee-panic", "unreachable", "panic-allowed":
+		case "nil", "bounds", "slice", "assert-type", "nilmap", "makeslice", "shift", "div0", "callee-panic", "unreachable", "panic-allowed":
 			skip = vc.contract.NoSafety
 		case "pre":
 			skip = vc.contract.NoPre
@@ -413,7 +413,7 @@ func (vc *VC) arrayComp(t types.Type) (string, string, types.Type) {
 
 func (vc *VC) loadArray(st *State, id Term, t types.Type) Val {
 	name, srt, _ := vc.arrayComp(t)
-	return Val{T: t, K: KArray, S: sel(vc.heapGet(st, name, srt), id)}
+	return Val{T: t, K: KArray, S: sel(vc.heapGet(st, name, srt), id), Sl: [4]Term{id}} // Sl[0]: the array's object id (for slicing in specifications)
 }
 
 func (vc *VC) storeArray(st *State, id Term, v Val) {
